@@ -215,16 +215,19 @@ PROPS["C11"] = {"theorems": ["C11_scalar", "C11_scalar_schema", "C11_scalar_vali
                              "PredOK_uniqueItems_partial", "C11_tree_partial", "C11_iff_partial", "node_scalar_validator",
                              "node_list_validator", "node_union_validator", "node_optional_validator",
                              "predCheck_PredOK", "predCheck_noRaise", "SchemasDecide.count", "C11_record_schema",
-                             "node_record_validator", "node_ntuple_validator", "fields_formula", "foldl_jset_nodup"],
+                             "node_record_validator", "node_ntuple_validator", "fields_formula", "foldl_jset_nodup",
+                             "C11_map_schema", "node_map_validator", "node_equals_validator", "equals_schema_eq",
+                             "node_utuple_validator", "PredOK_minKeys", "PredOK_maxKeys", "jaddPred_noclash"],
                 "modules": ["KodaModel.Properties.C11", "KodaModel.Properties.C11Pat", "KodaModel.Properties.C11Containers",
                             "KodaModel.Properties.C11Record", "KodaModel.Properties.C11Glue"],
                 "level_note": "proved: `C11_iff_partial` — for every tree (any depth, any width) built from string / integer / float / "
-                              "boolean validators with typed predicates, lists, unions and optionals, and every JSON value, the "
+                              "boolean validators with typed predicates, equality validators, lists, uniform and n-tuples, string-keyed maps, "
+                              "the five record kinds, key-not-required, unions and optionals, and every JSON value, the "
                               "generated schema accepts the value iff the validator does, under the side conditions `ok` "
                               "(predicates used on their kind; the agreement conditions findings D13 / D14 / D15 violate, each "
                               "with its witness); keyword clashes merged under allOf; the pattern reader inverts the pattern "
-                              "writer for every pattern; maps, uniform tuples, equality validators and named recursion are not in "
-                              "the tree theorem: they are decided by the correspondence and the jsonschema oracle only",
+                              "writer for every pattern; named recursion ($ref) is not in the tree theorem: it is decided by the "
+                              "correspondence and the jsonschema oracle only",
                 "run": _run_c11, "replay": _replay_c11,
                 "rule": "validator trees of the JSON-native fragment to depth 3 (scalars with every supported predicate, "
                         "lists / uniform / n-tuples, string-keyed maps, the five record kinds with optional keys and both "
@@ -239,9 +242,14 @@ def _run_ann(pid: str, tier: str, seed: int, spec: dict, scale: float = 1.0, sal
     return ann_stream.run(pid, tier, seed, spec, scale, salt)
 
 
-PROPS["C07"] = {"theorems": ["C07_scalar_strict", "C07_scalar_default_complete", "C07_scalar_default_sound", "C07_any",
+PROPS["C07"] = {"theorems": ["C07_strict_tree_partial", "C07_strict_iff_partial", "union_of_variants",
+                             "C07_scalar_strict", "C07_scalar_default_complete", "C07_scalar_default_sound", "C07_any",
                              "C07_none", "C07_list_step", "derive_scalar", "defaultCoerce_typed", "strict_scalar_iff"],
-                "level_note": "proved for `derive` (both resolvers): scalar annotations, Any, None, arbitrary classes (sound and "
+                "modules": ["KodaModel.Properties.C07", "KodaModel.Properties.C07Tree"],
+                "level_note": "C07_strict_iff_partial: for every annotation built from scalars, classes, Any, None, List[..] and "
+                              "Union[..] / Optional[..] (any nesting) and every Python value, the validator derived by the strict "
+                              "(signature) resolver terminates and accepts iff hasType; further, "
+                              "for `derive` (both resolvers): scalar annotations, Any, None, arbitrary classes (sound and "
                               "complete against `hasType`, payload = the value where nothing coerces; the coercing types under "
                               "`OracleTyped`), and the List[T] step (item sound+complete => list sound+complete, every fuel); "
                               "dict / set / tuple / Literal / record / Maybe / Annotated forms and the glue over nested annotations "
